@@ -27,6 +27,7 @@ import (
 	"net"
 	"os"
 	"sync"
+	"sync/atomic"
 	"time"
 
 	"github.com/IrineSistiana/mosdns/v5/pkg/dnsutils"
@@ -747,8 +748,10 @@ func (c *dlConn) poke() {
 
 func (c *dlConn) feed(b []byte, opaque []bool) {
 	c.mu.Lock()
-	c.buf = append(c.buf, b...)
-	c.opq = append(c.opq, opaque...)
+	if !c.closed {
+		c.buf = append(c.buf, b...)
+		c.opq = append(c.opq, opaque...)
+	}
 	c.mu.Unlock()
 	c.poke()
 }
@@ -756,6 +759,11 @@ func (c *dlConn) feed(b []byte, opaque []bool) {
 func (c *dlConn) Read(p []byte) (int, error) {
 	for {
 		c.mu.Lock()
+		if c.closed {
+			// closed on this side: nothing is handed out any more (like a real socket)
+			c.mu.Unlock()
+			return 0, net.ErrClosed
+		}
 		if len(c.buf) > 0 {
 			n := copy(p, c.buf)
 			items := []int{}
@@ -778,11 +786,6 @@ func (c *dlConn) Read(p []byte) (int, error) {
 			c.log(ev{"ev": "Read", "items": items})
 			c.mu.Unlock()
 			return n, nil
-		}
-		if c.closed {
-			c.log(ev{"ev": "EOF"})
-			c.mu.Unlock()
-			return 0, io.EOF
 		}
 		dl := c.deadline
 		if !dl.IsZero() && !time.Now().Before(dl) {
@@ -843,8 +846,14 @@ func stallRun(rng *rand.Rand, run int) {
 	log := func(e ev) { events = append(events, e) } // callers hold mu or conn.mu; see below
 	conn := newDlConn(func(e ev) { mu.Lock(); log(e); mu.Unlock() })
 	idle := 250 * time.Millisecond
+	var dials atomic.Int32
 	tr := transport.NewPipelineTransport(transport.PipelineOpts{
 		DialContext: func(ctx context.Context) (transport.DnsConn, error) {
+			// one connection per run: a re-dial after the connection was given up must not be handed
+			// the same (closed, half-read) harness conn again
+			if dials.Add(1) > 1 {
+				return nil, errors.New("harness: the peer accepts one connection only")
+			}
 			return transport.NewDnsConn(transport.TraditionalDnsConnOpts{WithLengthHeader: true, IdleTimeout: idle, MaxConcurrentQuery: 8}, conn), nil
 		},
 		MaxConcurrentQueryWhileDialing: 8,
@@ -903,7 +912,8 @@ func stallRun(rng *rand.Rand, run int) {
 		mu.Lock()
 		defer mu.Unlock()
 		if x.err != nil {
-			log(ev{"ev": "Err", "err": x.err.Error()})
+			// an exchange that fails says nothing about framing (only delivered bytes do)
+			log(ev{"ev": "CallerErr", "err": x.err.Error()})
 			return
 		}
 		// the caller's id is restored by the transport: compare modulo bytes 0-1
